@@ -18,7 +18,8 @@ UOpts == {"none", "plain", "filterA", "filterB", "gp", "gp+filterA"}
 GOpts == {"idle60", "idle30", "pool", "filterA"}
 
 \* cseq: sequence number of the certificate map rule (the device may number it differently)
-BuildC(uopt, idle, gopt, topt, sfx, ovl, two, cseq) ==
+\* tty: type of the tunnel-group (a changed type means that no line of the tunnel-group matches: it is replaced)
+BuildT(uopt, idle, gopt, topt, sfx, ovl, two, cseq, tty) ==
   LET gen   == sfx # ""
       aclA  == "vpnfA" \o sfx    aclB == "vpnfB" \o sfx   gpn == "VPN-group" \o sfx   pooln == "pool" \o sfx
       cmn   == "ca-map" \o sfx   tgn == "VPN-tunnel" \o sfx
@@ -46,8 +47,11 @@ BuildC(uopt, idle, gopt, topt, sfx, ovl, two, cseq) ==
       pool  == IF usePool THEN {<<Key("pool", pooln), O("pool", pooln, gen, {L("", "10.1.219.192-10.1.219.255 mask 0.0.0.63", <<>>)})>>} ELSE {}
       chain == IF topt # "map" THEN {} ELSE
                {<<Key("cm", cmn), O("cm", cmn, gen, {L(cseq, "subject-name attr ea co @sub.example.com", <<>>)})>>,
-                <<Key("tg", tgn), O("tg", tgn, gen, {L("", "type remote-access", <<>>),
-                                                      L("general-attributes", "default-group-policy $", <<Key("gp", gpn)>>)})>>,
+                <<Key("tg", tgn), O("tg", tgn, gen,
+                    IF tty = "remote-access"
+                    THEN {L("", "type " \o tty, <<>>), L("general-attributes", "default-group-policy $", <<Key("gp", gpn)>>)}
+                    \* another type with no line in common: the tunnel-group is replaced, not edited
+                    ELSE {L("", "type " \o tty, <<>>), L("ipsec-attributes", "peer-id-validate nocheck", <<>>)})>>,
                 <<Key("tgm", ""), O("tgm", "", FALSE, {L(cseq, "$ # $", <<Key("cm", cmn), Key("tg", tgn)>>)})>>}
       extra == IF ovl = "foreign" THEN
                {<<Key("gp", "foreign-gp"), O("gp", "foreign-gp", FALSE, {L("", "internal", <<>>),
@@ -62,11 +66,12 @@ BuildC(uopt, idle, gopt, topt, sfx, ovl, two, cseq) ==
                ELSE {}
   IN [objs |-> F(user \cup gp \cup acls \cup pool \cup chain \cup extra)]
 
+BuildC(uopt, idle, gopt, topt, sfx, ovl, two, cseq) == BuildT(uopt, idle, gopt, topt, sfx, ovl, two, cseq, "remote-access")
 Build(uopt, idle, gopt, topt, sfx, ovl, two) == BuildC(uopt, idle, gopt, topt, sfx, ovl, two, "20")
 
 F5 ==
   \E ud, ut \in UOpts, id, it \in {"60", "30"}, gd, gt \in GOpts, td, tt \in {"none", "map"},
-     sfx \in {"", "-DRC-0"}, ovl \in {"none", "foreign", "foreign-tg", "leftover"}, twod, twot \in BOOLEAN, cs \in {"20", "10"} :
+     sfx \in {"", "-DRC-0"}, ovl \in {"none", "foreign", "foreign-tg", "leftover"}, twod, twot \in BOOLEAN, cs \in {"20", "10"}, ty \in {"remote-access", "ipsec-l2l"} :
     /\ (ud \notin {"gp", "gp+filterA"} /\ td = "none" /\ ovl # "foreign-tg") => gd = "idle60"   \* group-policy unused: one representative
     /\ (ut \notin {"gp", "gp+filterA"} /\ tt = "none") => gt = "idle60"
     /\ (ud = "none") => id = "60"
@@ -75,8 +80,8 @@ F5 ==
     /\ (~(ud \in {"filterA", "gp+filterA"} \/ gd = "filterA") => ~twod)
     /\ (ovl = "foreign-tg" /\ ud \notin {"gp", "gp+filterA"} /\ td = "none" => sfx = "-DRC-0")
     /\ (~(ut \in {"filterA", "gp+filterA"} \/ gt = "filterA") => ~twot)
-    /\ (td = "none" => cs = "20")
-    /\ dev = BuildC(ud, id, gd, td, sfx, ovl, twod, cs)
+    /\ (td = "none" => cs = "20" /\ ty = "remote-access")
+    /\ dev = BuildT(ud, id, gd, td, sfx, ovl, twod, cs, ty)
     /\ tgt = Build(ut, it, gt, tt, "", "none", twot)
 
 (* F5U: several users (several anchors of one prefix) that share or do not share a group-policy and *)
